@@ -1,0 +1,108 @@
+//go:build verif
+
+package fp
+
+// Contracts for fp.Iterator (iterator.go), checked by /verif/govc.
+// An Iterator parameter is an arbitrary protocol-abiding source over a finite
+// sequence: IterLen / IterAt / IterPos (see internal/verifspec).
+
+//@ func (Iterator).ToSeq(r) result
+//@   prop C12 C04
+//@   ensures len(result) == IterLen(r)
+//@   ensures forall i int :: 0 <= i && i < IterLen(r) ==> Eq(result[i], verifspec.IterAt[T](r, i))
+//@   ensures IterPos(r) == IterLen(r) && Unchanged()
+//@   loop 0 invariant len(ret) == IterPos(r) && IterPos(r) < IterLen(r) && Fresh(ret)
+//@   loop 0 invariant forall j int :: 0 <= j && j < IterPos(r) ==> Eq(ret[j], verifspec.IterAt[T](r, j))
+//@   loop 0 decreases IterLen(r) - IterPos(r)
+//
+//@ func (Iterator).Count(r) result
+//@   prop C12
+//@   ensures result == IterLen(r) && IterPos(r) == IterLen(r)
+//@   loop 0 invariant ret == IterPos(r) && IterPos(r) < IterLen(r)
+//@   loop 0 decreases IterLen(r) - IterPos(r)
+//
+//@ func (Iterator).Find(r, p) result
+//@   prop C12 C20
+//@   ensures result.IsDefined() ==> IterPos(r) >= 1 && IterPos(r) <= IterLen(r) && Eq(result.Get(), verifspec.IterAt[T](r, IterPos(r)-1)) && p(result.Get())
+//@   ensures !result.IsDefined() ==> IterPos(r) == IterLen(r)
+//@   ensures forall j int :: 0 <= j && j < IterPos(r)-1 ==> !p(verifspec.IterAt[T](r, j))
+//@   ensures !result.IsDefined() ==> (forall j int :: 0 <= j && j < IterLen(r) ==> !p(verifspec.IterAt[T](r, j)))
+//@   loop 0 invariant IterPos(r) < IterLen(r) && (forall j int :: 0 <= j && j < IterPos(r) ==> !p(verifspec.IterAt[T](r, j)))
+//@   loop 0 decreases IterLen(r) - IterPos(r)
+//
+//@ func (Iterator).Exists(r, p) result
+//@   prop C12
+//@   ensures result ==> (exists i int :: 0 <= i && i < IterLen(r) && p(verifspec.IterAt[T](r, i)))
+//@   ensures !result ==> (forall i int :: 0 <= i && i < IterLen(r) ==> !p(verifspec.IterAt[T](r, i)))
+//@   loop 0 invariant IterPos(r) < IterLen(r) && (forall j int :: 0 <= j && j < IterPos(r) ==> !p(verifspec.IterAt[T](r, j)))
+//@   loop 0 decreases IterLen(r) - IterPos(r)
+//
+//@ func (Iterator).ForAll(r, p) result
+//@   prop C12
+//@   ensures result ==> (forall i int :: 0 <= i && i < IterLen(r) ==> p(verifspec.IterAt[T](r, i)))
+//@   ensures !result ==> (exists i int :: 0 <= i && i < IterLen(r) && !p(verifspec.IterAt[T](r, i)))
+//@   loop 0 invariant IterPos(r) < IterLen(r) && (forall j int :: 0 <= j && j < IterPos(r) ==> p(verifspec.IterAt[T](r, j)))
+//@   loop 0 decreases IterLen(r) - IterPos(r)
+//
+//@ func (Iterator).NextOption(r) result
+//@   prop C12 C20
+//@   ensures IterLen(r) > 0 ==> Eq(result, Some(verifspec.IterAt[T](r, 0))) && IterPos(r) == 1
+//@   ensures IterLen(r) == 0 ==> Eq(result, None[T]()) && IterPos(r) == 0
+//
+//@ func (Iterator).HasNext(r) result
+//@   prop C20
+//@   ensures result == (IterLen(r) > 0) && IterPos(r) == 0
+//
+//@ lemma iteratorZeroValue[T any](p func(T) bool, f func(T))
+//@   prop C20
+//@   ensures !Iterator[T]{}.HasNext()
+//@   ensures len(Iterator[T]{}.ToSeq()) == 0
+//@   ensures Iterator[T]{}.Count() == 0
+//@   ensures !Iterator[T]{}.NextOption().IsDefined()
+//@   ensures !Iterator[T]{}.Find(p).IsDefined()
+//@   ensures !Iterator[T]{}.Exists(p)
+//@   ensures Iterator[T]{}.ForAll(p)
+//@   ensures Iterator[T]{}.IsEmpty() && !Iterator[T]{}.NonEmpty()
+//@   ensures !Iterator[T]{}.Take(3).HasNext()
+//@   ensures !Iterator[T]{}.Filter(p).HasNext()
+//@   ensures !Iterator[T]{}.Map(func(t T) T { return t }).HasNext()
+//@   ensures !Iterator[T]{}.TakeWhile(p).HasNext()
+//@   ensures !Iterator[T]{}.DropWhile(p).HasNext()
+//@   ensures !Iterator[T]{}.Drop(2).HasNext()
+//@   ensures !Iterator[T]{}.Concat(Iterator[T]{}).HasNext()
+//@   ensures !Iterator[T]{}.TapEach(f).HasNext()
+//@   ensures !Panics(verifspec.Do(func() { Iterator[T]{}.All()(p) }))
+//
+// Step lemmas for the lazy combinators: from ANY state satisfying the coupling
+// invariant between the combinator's private variables and its source, one
+// HasNext / Next behaves as the abstract iterator does and re-establishes the
+// invariant.  With the initial-state lemma this characterises every finite
+// run by induction on the number of calls (the induction itself is the only
+// step kept on paper).
+//
+//@ ghost
+//@ func iterTakeStep[T any](r Iterator[T], n int, next bool) bool {
+//@ 	it := r.Take(n)
+//@ 	verifspec.Havoc(it)
+//@ 	i := verifspec.Cell[int](it, "i")
+//@ 	verifspec.Assume(0 <= i && i <= verifspec.IterPos(r))
+//@ 	p0 := verifspec.IterPos(r)
+//@ 	want := i < n && p0 < verifspec.IterLen(r)
+//@ 	if it.HasNext() != want || it.HasNext() != want || verifspec.IterPos(r) != p0 || verifspec.Cell[int](it, "i") != i {
+//@ 		return false
+//@ 	}
+//@ 	if !next {
+//@ 		return true
+//@ 	}
+//@ 	if !want {
+//@ 		return Panics(it.Next())
+//@ 	}
+//@ 	v := it.Next()
+//@ 	return Eq(v, verifspec.IterAt[T](r, p0)) && verifspec.IterPos(r) == p0+1 && verifspec.Cell[int](it, "i") == i+1
+//@ }
+//@ end
+//
+//@ lemma iterTake[T any](r Iterator[T], n int, next bool)
+//@   prop C12 C20
+//@   ensures iterTakeStep(r, n, next)
+//
